@@ -72,6 +72,11 @@ func (in *Injector) Hook(point string, obj interface{}) {
 		return
 	}
 	done := make(chan struct{})
+	// registered before the operation starts: Wait must see it whichever goroutine hosts
+	// the window (a converter goroutine's window is asynchronous to the script)
+	in.mu.Lock()
+	in.pending = append(in.pending, done)
+	in.mu.Unlock()
 	go func() {
 		defer close(done)
 		fire.Do()
@@ -81,7 +86,6 @@ func (in *Injector) Hook(point string, obj interface{}) {
 	case <-time.After(in.Grace):
 		in.mu.Lock()
 		in.Blocked++
-		in.pending = append(in.pending, done)
 		in.mu.Unlock()
 	}
 }
